@@ -346,10 +346,11 @@ def run(w, fn, x, driver=None, flags=frozenset(), split=None):
     w.reset()
     args = [x]
     kwargs = {}
-    if "sig:rich" in flags:
+    # (input 1 leaves every optional argument to its default value)
+    if "sig:rich" in flags and x != 1:
         args += [5, 6, 7]
         kwargs = {"k": 8, "z": 9}
-    elif "sig:kwonly" in flags:
+    elif "sig:kwonly" in flags and x != 1:
         kwargs = {"k": 8}
     o = d = None
     if "o" in flags:
